@@ -77,6 +77,22 @@ func Fixed(n int, tag string) []*big.Int {
 	return out
 }
 
+// DomainConstants returns the values that a confusion between the Montgomery domain and the canonical domain would
+// single out: R = 2^256 mod m (the stored form of 1, read as a value), R^2, R^-1, R^-2 and their neighbours.
+func DomainConstants(m *big.Int) []*big.Int {
+	r := ref.Mod(ref.Two256(), m)
+	ri := new(big.Int).ModInverse(r, m)
+	one := big.NewInt(1)
+
+	var out []*big.Int
+
+	for _, v := range []*big.Int{r, ref.Mod(new(big.Int).Mul(r, r), m), ri, ref.Mod(new(big.Int).Mul(ri, ri), m)} {
+		out = append(out, v, ref.Mod(new(big.Int).Add(v, one), m), ref.Mod(new(big.Int).Sub(v, one), m), ref.Mod(new(big.Int).Neg(v), m))
+	}
+
+	return out
+}
+
 // Val is a member of a value alphabet: a canonical value in [0, m) together with its Montgomery limbs.
 type Val struct {
 	V   *big.Int
@@ -107,6 +123,8 @@ func Values(m *big.Int, level int) []Val {
 	for _, v := range Fixed(12+12*level, "values") {
 		base = append(base, ref.Mod(v, m))
 	}
+
+	base = append(base, DomainConstants(m)...)
 
 	if seed := ev.Seed(); seed != 0 {
 		rng := rand.New(rand.NewSource(seed))
@@ -230,6 +248,10 @@ func Scalars(level int) []*big.Int {
 	}
 
 	for _, v := range Fixed(16+16*level, "scalars") {
+		add(v)
+	}
+
+	for _, v := range DomainConstants(n) {
 		add(v)
 	}
 
